@@ -35,6 +35,9 @@ class Inconclusive(Exception):
     pass
 
 
+FATAL_SIGNALS = {4: "SIGILL", 6: "SIGABRT", 7: "SIGBUS", 8: "SIGFPE", 11: "SIGSEGV"}
+
+
 def log(*a):
     print(*a, flush=True)
 
@@ -250,6 +253,17 @@ def finish(pid, tier, seed, spec, merged, problems, distinct_hashed, wall, extra
             merged["violations"][sig]["count"] += 1
             merged["violations"][sig]["examples"].append({"detail": {"what": "a single allocation request above the hard cap was made", "marker": pr.get("marker")}, "replay": []})
             unknown.append((sig, merged["violations"][sig]))
+        elif kind == "signal" and pr.get("signal") in FATAL_SIGNALS and "memory allocation of" not in (pr.get("stderr_tail") or ""):
+            # the worker process died while executing library code (stack overflow, memory error in
+            # unsafe code, abort): the call did not "return Ok or Err".  SIGKILL (OOM killer, timeouts)
+            # is not in this class and stays inconclusive.
+            sig = "%s|fatal-signal|%s" % (pid, FATAL_SIGNALS[pr["signal"]])
+            e = merged["violations"].setdefault(sig, {"count": 0, "examples": []})
+            e["count"] += 1
+            if len(e["examples"]) < 2:
+                e["examples"].append({"detail": {"what": "worker shard %s was killed by %s while running the workload" % (pr.get("shard"), FATAL_SIGNALS[pr["signal"]]), "stderr_tail": (pr.get("stderr_tail") or "")[-600:], "rerun": "the shard is deterministic: harness/target/release/vmain %s --tier %s --seed %d --shard %s --nshards %d" % (spec.get("sub", ""), tier, seed, pr.get("shard"), NCPU)}, "replay": []})
+            if not any(s0 == sig for s0, _ in unknown):
+                unknown.append((sig, e))
         elif kind == "watchdog":
             inconclusive.append("watchdog fired in shard %s: %s" % (pr.get("shard"), pr.get("marker")))
         else:
